@@ -3,9 +3,11 @@
 // One case = one schema (2-4 tables with a common column set, NULLs, duplicated join keys) in three index
 // layouts (A: primary key + secondary indexes, B: primary key only, C: no keys), and a few generated
 // read-only queries. Every query is executed under many plan configurations:
-//   default coster · the memo's six exported biased costers · seeded random costers installed through
-//   Analyzer.Coster (cost = hash(seed, RelExpr)) · join hints (JOIN_ORDER permutations, LOOKUP/HASH/MERGE/
-//   INNER/SEMI/ANTI_JOIN, LEFT_DEEP, NO_MERGE_JOIN) · SET @@disable_merge_join=1 · the other index layouts.
+//
+//	default coster · the memo's six exported biased costers · seeded random costers installed through
+//	Analyzer.Coster (cost = hash(seed, RelExpr)) · join hints (JOIN_ORDER permutations, LOOKUP/HASH/MERGE/
+//	INNER/SEMI/ANTI_JOIN, LEFT_DEEP, NO_MERGE_JOIN) · SET @@disable_merge_join=1 · the other index layouts.
+//
 // Oracle: every configuration returns the same row multiset as the default configuration on layout A (the
 // same sequence when ORDER BY lists every output column); failures are compared by class.
 package main
@@ -359,6 +361,21 @@ func oneQuery(r *core.Run, st *stats, tabs []*g.Table, lay [3]layoutEng, q g.Que
 			}
 		}
 		w["configs_agreeing_with_base"], w["configs_differing"] = agree, differ
+		var per []string
+		for _, p := range all {
+			var js []string
+			for _, op := range g.Operators(p.Plan) {
+				if strings.Contains(op, "Join") {
+					js = append(js, op)
+				}
+			}
+			n := -1
+			if p.Out.OK() {
+				n = len(p.Out.Sorted)
+			}
+			per = append(per, fmt.Sprintf("%s: rows=%d same-as-base=%v joins=%s taints=%v", p.Cfg.Name, n, p.Out.SameMultiset(base.Out), strings.Join(js, "+"), taintsOf(q, p.Plan)))
+		}
+		w["per_config"] = per
 		sig := classify(q, base, o, all, mode)
 		r.Violation(sig, w)
 		return // one report per query
